@@ -115,6 +115,13 @@ func AddStandardFilters(fd FilterDictionary) { //nolint: gocyclo
 			}
 			return a / b, nil
 		}
+		divUint := func(a int64, b uint64) (int64, error) {
+			if b > math.MaxInt64 {
+				// |a| <= MaxInt64 < b: the quotient truncates to zero
+				return 0, nil
+			}
+			return divInt(a, int64(b))
+		}
 		divFloat := func(a, b float64) (float64, error) {
 			if b == 0 {
 				return 0, errDivisionByZero
@@ -132,6 +139,10 @@ func AddStandardFilters(fd FilterDictionary) { //nolint: gocyclo
 			return divInt(int64(a), int64(q))
 		case int64:
 			return divInt(int64(a), q)
+		case uint:
+			return divUint(int64(a), uint64(q))
+		case uint64:
+			return divUint(int64(a), q)
 		case uint8:
 			return divInt(int64(a), int64(q))
 		case uint16:
